@@ -59,7 +59,8 @@ class OJNIO(GameIO):
                     out.append(f"{w}tempo change at measure {float(b['pos'])} ({float(b['offset'])} ms, {float(b['bpm'])} bpm) is not in the tempo list "
                                f"{[(x.get('offset'), x.get('bpm')) for x in rows][:8]}")
                     break
-            if not any(_num_ok(x.get("offset")) and x["offset"] == 0 and near(x.get("bpm", 0), den["header"]["bpm"], 1e-9) for x in rows):
+            if not any(b["pos"] == 0 for b in lv["bpms"]) and \
+                    not any(_num_ok(x.get("offset")) and x["offset"] == 0 and near(x.get("bpm", 0), den["header"]["bpm"], 1e-9) for x in rows):
                 out.append(f"{w}the header tempo {den['header']['bpm']} at 0 ms is not in the tempo list")
         m = a["meta"]
         for f, v in den["header"].items():
@@ -76,3 +77,16 @@ class OJNIO(GameIO):
 
     def cmp_gen(self, dk, d1):
         return []
+
+
+def _ojn_pipeline_valid(self, doc, c) -> str:
+    for lv in doc["levels"]:
+        if not any(p[1] == 8 and any(p[2]) for p in lv):
+            return "last column unused"
+        for m, ch, ev in lv:
+            if ch == 1 and any(ev[1:]):
+                return "tempo event off a measure line"
+    return ""
+
+
+OJNIO.valid_pipeline_doc = _ojn_pipeline_valid
